@@ -52,13 +52,16 @@ def gen_job(verif_seed, tier, index):
     if mode in ("dist", "pers"):
         # distance-type restraints need room: the first molecule type becomes a linear chain of 8-14 residues
         mt = spec["moltypes"][0]
-        n = g.randint(8, 14)
+        n = g.randint(8, 14) if (mode == "dist" or g.random() < 0.5) else g.randint(6, 9)
         names = sorted(spec["restypes"])
         mt["shape"] = "linear"
         mt["residues"] = [g.choice(names) for _ in range(n)] if g.random() < 0.5 else [g.choice(names)] * n
         mt["edges"] = [[k, k + 1] for k in range(n - 1)]
         if not any(nm == mt["name"] for nm, _ in spec["molecules"]):
             spec["molecules"].insert(0, [mt["name"], g.randint(1, 2)])
+        if mode == "pers" and n <= 9:
+            # several copies of the short chain: every molecule samples its own end-to-end distance
+            spec["molecules"] = [[mt["name"], g.randint(4, 8)]]
         if mode == "dist" and len(spec["moltypes"]) >= 2 and g.random() < 0.6:
             # a second restrained chain type built from other (differently sized) residues
             mt2 = spec["moltypes"][1]
